@@ -72,8 +72,11 @@ func RunEnv(dir, bin string, args []string, stdin *string, how string, env []str
 		case how == "null" && *stdin == "":
 			// leave cmd.Stdin nil: os/exec connects /dev/null
 		case how == "file":
+			// a regular file that an earlier reader has already consumed one line of: the input starts at the
+			// descriptor's current offset, not at the start of the file
+			const consumed = "a line consumed by an earlier reader\n"
 			p := filepath.Join(dir, fmt.Sprintf("stdin-%d", counter.Add(1)))
-			if err := os.WriteFile(p, []byte(*stdin), 0644); err != nil {
+			if err := os.WriteFile(p, []byte(consumed+*stdin), 0644); err != nil {
 				panic(err)
 			}
 			f, err := os.Open(p)
@@ -81,6 +84,9 @@ func RunEnv(dir, bin string, args []string, stdin *string, how string, env []str
 				panic(err)
 			}
 			defer f.Close()
+			if _, err := f.Seek(int64(len(consumed)), 0); err != nil {
+				panic(err)
+			}
 			cmd.Stdin = f
 		default:
 			cmd.Stdin = bytes.NewReader([]byte(*stdin))
